@@ -79,7 +79,7 @@ def strings(tier, seed):
             [(b, a) for a in (97, 49, 10) for b in meta]
     if tier == 'quick':
         rnd.shuffle(pairs)
-        core = [(92, 92), (36, 36), (92, 36), (97, 36), (36, 97), (91, 97), (97, 91), (92, 91), (92, 93), (40, 41),
+        core = [(92, 39), (39, 92), (92, 34), (39, 34), (58, 97), (92, 92), (36, 36), (92, 36), (97, 36), (36, 97), (91, 97), (97, 91), (92, 91), (92, 93), (40, 41),
                 (124, 124), (97, 124), (94, 97), (97, 94), (63, 63), (97, 63), (123, 125), (47, 47), (92, 110), (92, 49)]
         out += core + [p for p in pairs if p not in core][:60]
         ntr = 60
@@ -103,7 +103,7 @@ def literal_configs(tier, seed):
     cfgs = [spine_config('positions-x-strings', wins, 1, ops, {'strs', 'pregexstrs', 'minpool'},
                          quants=QUANTS_SMALL, strs=strs)]
     # strings that look like group / quantifier / class syntax, under two nested group or quantifier calls
-    syn = [(97, 63, 58, 98), (40, 63, 58, 97, 41), (40, 63, 80, 60, 110, 62, 97, 41), (63, 58), (40, 63, 105, 58, 97, 41), (97, 123, 50, 125),
+    syn = [(58, 97), (58,), (58, 58, 49), (63, 97), (39, 97, 39), (97, 63, 58, 98), (40, 63, 58, 97, 41), (40, 63, 80, 60, 110, 62, 97, 41), (63, 58), (40, 63, 105, 58, 97, 41), (97, 123, 50, 125),
            (91, 97, 45, 122, 93), (40, 97, 41), (92, 49), (97, 124, 98), (40, 63, 61, 97, 41), (94, 97, 36), (92, 98)]
     if tier != 'quick':
         syn += [x for x in strs if len(x) == 2][:400]
@@ -154,9 +154,9 @@ def group_configs(tier, seed):
     pool = {'parens', 'looks', 'refs', 'alt', 'quant', 'group', 'nested', 'focusall', 'minpool'}
     ctxwins = [(97, 41, 40), (97, 40, 63)] + wins
     if tier == 'quick':
-        return [spine_config('group-nesting-3', wins[:2], 3, {'group'}, pool, names=('n', 'm')),
-                spine_config('group-in-context', ctxwins[:2], 2, {'group', 'concat', 'either', 'quant'}, {'group', 'alt', 'nested', 'focusall'}, quants=QUANTS_TWO, names=('n', 'm')),
-                spine_config('group-concat-group', ctxwins[:1], 3, {'group', 'concat'}, {'nolit'}, names=('n',))]
+        return [spine_config('group-nesting-3', wins[:2], 3, {'group'}, pool, names=('n', 'nn')),
+                spine_config('group-in-context', ctxwins[:1], 2, {'group', 'concat', 'either', 'quant'}, {'group', 'alt', 'nested', 'focusall'}, quants=QUANTS_TWO, names=('n', 'm')),
+                spine_config('group-concat-group', ctxwins[:1], 3, {'group', 'concat'}, {'nolit'}, names=('n', 'nn'))]
     return [spine_config('group-nesting-4', wins[:6], 4, {'group'}, pool, names=('n', 'm')),
             spine_config('group-in-context', ctxwins[:4], 3, {'group', 'concat', 'either', 'quant'}, {'group', 'alt', 'nested', 'focusall'}, quants=QUANTS_TWO, names=('n', 'm')),
             spine_config('group-concat-group', ctxwins[:3], 4, {'group', 'concat'}, {'nolit'}, names=('n',))]
@@ -187,7 +187,7 @@ def width_configs(tier, seed):
               ('AtLeastAtMost', 2, 2, True), ('AtMost', 0, 2, True), ('AtLeast', 1, -1, True), ('Mul', 3, 3, True)}
     pool = {'class', 'alt', 'quant', 'group', 'assert', 'token', 'wb', 'empty'}
     if tier == 'quick':
-        return [spine_config('lookbehind-depth2', wins[:2], 2, {'look', 'quant', 'either', 'concat', 'group'}, {'class'}, quants=quants, names=()),
+        return [spine_config('lookbehind-depth2', wins[:1], 2, {'look', 'quant', 'either', 'concat', 'group'}, {'class', 'wb'}, quants=quants, names=()),
                 spine_config('lookbehind-of-derived', wins[:1], 2, {'look', 'quant'}, {'minpool', 'alt', 'quant', 'focusall'},
                              quants={('Optional', 0, 1, True), ('Exactly', 2, 2, True), ('AtLeastAtMost', 1, 2, True), ('Mul', 3, 3, True)}, names=()),
                 spine_config('lookbehind-pool', wins[:3], 1, {'look'}, pool | {'focusall', 'lit3'}, quants=quants)]
@@ -295,6 +295,29 @@ CURATED_TERMS = [
     ('Concat', ('args', ('AnyFrom', (97, 45)), S_('-'), ('AnyFrom', (122,)))),
     ('Either', ('args', S_('a'), ('Concat', ('args', S_('|'), S_('b'))))),
     ('Concat', ('args', ('Anchor', 'eol', S_('a')), S_('$'), ('Anchor', 'bol', S_('^')))),
+    ('Either', ('args', S_('ab!'), S_('ab'), S_('ab!'))),
+    ('Either', ('args', S_('a'), S_('ab'), S_('a'), S_('abc'))),
+    ('Concat', ('args', ('Either', ('args', S_('a\\\\'), S_('b'))), S_('c'))),
+    ('Concat', ('args', S_('x'), ('Either', ('args', S_('\\\\'), S_('b'), S_('c\\'))), S_('y'))),
+    ('Exactly', ('Concat', ('args', S_('x'), ('Exactly', S_('a'), ('i', 2)))), ('i', 3)),
+    ('Mul', ('Concat', ('args', S_('x'), ('Exactly', S_('a'), ('i', 2)))), ('i', 2)),
+    ('AtLeastAtMost', ('Concat', ('args', ('Exactly', S_('a'), ('i', 2)), S_('{3}'))), ('i', 2), ('i', 2), True),
+    ('Pregex', tuple(ord(c) for c in "it\\'s")),
+    ('Concat', ('args', ('Token', 'Backslash'), S_("'"))),
+    ('Concat', ('args', S_("'"), ('OneOrMore', ('AnyFrom', (97, 98)), True), S_("'"))),
+    ('Capture', ('Group', S_(':a'), False), ('none',)),
+    ('Capture', ('Group', S_('::1'), False), ('name', 'n')),
+    ('Capture', ('Capture', ('Concat', ('args', ('Capture', S_('a'), ('name', 'n')), S_('b'))), ('name', 'nn')), ('name', 'k')),
+    ('Look', 'behind', True, S_('x'), ('args', ('Optional', ('WordBoundary',), True))),
+    ('Look', 'behind', False, S_('x'), ('args', ('AtLeastAtMost', ('WordBoundary',), ('i', 1), ('i', 2), True))),
+    ('Look', 'both', True, S_('x'), ('args', ('Indefinite', ('NonWordBoundary',), True))),
+    ('Look', 'behind', True, S_('x'), ('args', ('Concat', ('args', ('Optional', ('AnyFrom', (97, 92)), True), ('AnyFrom', (120, 121)))))),
+    ('Exactly', ('Anchor', 'bos', S_('a')), ('i', 0)),
+    ('Concat', ('args', S_('x'), ('Exactly', ('Anchor', 'bos', S_('a')), ('i', 0)), S_('y'))),
+    ('AtMost', ('Look', 'ahead', True, S_('a'), ('args', S_('b'))), ('i', 0), True),
+    ('OneOrMore', ('Anchor', 'bos', ('Concat', ('args', S_('word'), ('WordBoundary',)))), True),
+    ('OneOrMore', ('Anchor', 'bos', ('WordBoundary',)), True),
+    ('Indefinite', ('Look', 'ahead', True, ('Look', 'behind', False, S_('w'), ('args', S_('-'))), ('args', S_('!'))), True),
 ]
 
 
@@ -308,8 +331,11 @@ def random_term_configs(tier, seed, n_quick=4000, n_thorough=60000):
 RANDOM_PROGRAMS_FOR = {'C01', 'C03', 'C04', 'C05', 'C08', 'C09', 'C10'}      # C02 lists them in compose_configs
 
 
-def generic(prop, facets, rule, configs_fn, args_tier=None, seeds=(0,), mode='rr', extra_assume=(), params=None):
+def generic(prop, facets, rule, configs_fn, args_tier=None, seeds=None, mode='rr', extra_assume=(), params=None):
     tier, seed = tier_and_seed(args_tier)
+    if seeds is None:
+        # states are distributed over several PYTHONHASHSEED values; the curated programs run under every one of them
+        seeds = sorted({0, 1, 2, seed % (2 ** 32)})[:4]
     t0 = time.time()
     p = {'prop': prop, 'facets': sorted(facets)}
     p.update(params or {})
@@ -321,6 +347,8 @@ def generic(prop, facets, rule, configs_fn, args_tier=None, seeds=(0,), mode='rr
     if prop in SEM_INV:
         cfgs = [sem_config(prop, tier)] + cfgs
     res = run_generated(cfgs, 'harness.judge_compose.judge', p, seeds=seeds, mode=mode)
+    run_generated([terms_config('curated-programs-under-every-hash-seed', CURATED_TERMS)], 'harness.judge_compose.judge', p,
+                  seeds=list(seeds), mode='all', result=res)
     swept = codepoint_sweep(tier, res) if prop == 'C01' else 0
     st = res.agg.stats
     cov = {'states': res.states, 'transitions': res.transitions,
@@ -360,7 +388,7 @@ def codepoint_sweep(tier, res):
 
 
 def check_C01(tier=None):
-    return generic('C01', {'behaviour', 'compile', 'crash', 'exc', 'accepted'},
+    return generic('C01', {'behaviour', 'compile', 'crash', 'exc', 'accepted', 'export'},
                    RULE + 'terms place a str argument in every position of every operator that accepts str; non-trivial = '
                    'the step used a str argument', literal_configs, tier)
 
